@@ -291,7 +291,9 @@ Allowed(e, a, b) ==
          LET ymd == Dn2Ymd(l.dn) IN
          {[k |-> "ok", y |-> ymd[1], m |-> ymd[2], d |-> ymd[3], doy |-> Doy(l.dn), e |-> Weekday(l.dn) + 1,
            w |-> IsoWeek(l.dn), q |-> Quarter(ymd[2]), h |-> Hour(l.sod), mi |-> Minute(l.sod), s |-> Second(l.sod),
-           n |-> l.ns]}
+           n |-> l.ns,
+           \* and through Display (yyyy/MM/dd HH:mm:ss of the value in its offset)
+           disp |-> <<ymd[1], ymd[2], ymd[3], Hour(l.sod), Minute(l.sod), Second(l.sod)>>]}
     [] op = "dt_set" -> DtSet(a, e.f, NatOf(e.v), Big(e.v))
     [] op = "dt_clear" -> DtClear(a, e.f)
     [] op = "dt_set_offset" -> DtSetOffset(a, e.o)
@@ -347,6 +349,10 @@ Allowed(e, a, b) ==
     [] op = "time_dur_between" -> TimeDurBetween(a, b)
     [] op = "time_cmp" -> TimeCmp(a, b)
     [] op = "time_get" -> TimeFields(a)
+    \* the clock fields of a Time read through format() (H m s nnnnn, one symbol per pattern) and through Display
+    [] op = "time_fmt_get" -> LET l == TodLocal(TodOf(a), a.off) IN
+                              {[k |-> "ok", h |-> Hour(l.sod), mi |-> Minute(l.sod), s |-> Second(l.sod), n |-> l.ns,
+                                disp |-> <<Hour(l.sod), Minute(l.sod), Second(l.sod)>>]}
     [] op = "time_set" -> TimeSet(a, e.f, NatOf(e.v), Big(e.v))
     [] op = "time_clear" -> TimeClear(a, e.f)
     [] op = "time_set_offset" -> TimeSetOffset(a, e.o)
